@@ -48,3 +48,17 @@ MUTANTS += [
     ("c09_constant_K_uses_z", "C09", "pbl_model.py", "        Km = kap * ustar * zm / prsc\n", "        Km = kap * ustar * zm\n"),
     ("c09_psi_atan", "C09", "pbl_model.py", "        + 2.0 * np.arctan(xi)\n        - 0.5 * np.pi,", "        + 2.0 * np.arctan(xi)\n        - 0.5 * np.pi + 1e-6,"),
 ]
+
+MUTANTS += [
+    # ---- C18
+    ("c18_swap_index", "C18", "io.py", '            flx_data[t, ti] = r["flx"]\n', '            flx_data[min(ti, n_time - 1), min(t, n_towers - 1)] = r["flx"]\n'),
+    ("c18_conc_from_flx", "C18", "io.py", '            conc_data[t, ti] = r["conc"]\n', '            conc_data[t, ti] = r["flx"]\n'),
+    ("c18_towers_sorted", "C18", "io.py", "    tower_names = list(results.keys())\n", "    tower_names = sorted(results.keys())\n"),
+    ("c18_timestamps_reversed", "C18", "io.py", "    for r in results[tower_names[0]]:\n        ts = r[\"timestamp\"]\n", "    for r in results[tower_names[-1]][::-1]:\n        ts = r[\"timestamp\"]\n"),
+    ("c18_float32_storage", "C18", "io.py", '        "footprint": {"zlib": True, "complevel": 4},\n', '        "footprint": {"zlib": True, "complevel": 4, "dtype": "float32"},\n'),
+    ("c18_met_from_last_step", "C18", "io.py", '                mol_data[t] = r["params"]["mol"]\n', '                mol_data[t] = results[tower_name][-1]["params"]["mol"]\n'),
+    ("c18_tower_meta_reversed", "C18", "io.py", "    tower_lats = [t.lat for t in config.towers]\n", "    tower_lats = [t.lat for t in config.towers][::-1]\n"),
+    ("c18_level_height_first_only", "C18", "io.py", '                level_height[t, ti] = r["grid"][2][:, 0, 0]\n', '                level_height[t, ti] = z\n'),
+    ("c18_least_significant_digit", "C18", "io.py", '        "concentration": {"zlib": True, "complevel": 4},\n', '        "concentration": {"zlib": True, "complevel": 4, "least_significant_digit": 12},\n'),
+    ("c18_y_from_x", "C18", "io.py", "        y = Y[:, 0] if Y.ndim == 2 else Y\n", "        y = X[:, 0] if Y.ndim == 2 else Y\n"),
+]
